@@ -1,0 +1,24 @@
+// Copyright 2025 BINARY Members
+//
+// Licensed under the Apache License, Version 2.0 (the "License");
+// you may not use this file except in compliance with the License.
+// You may obtain a copy of the License at
+//
+//     http://www.apache.org/licenses/LICENSE-2.0
+//
+// Unless required by applicable law or agreed to in writing, software
+// distributed under the License is distributed on an "AS IS" BASIS,
+// WITHOUT WARRANTIES OR CONDITIONS OF ANY KIND, either express or implied.
+// See the License for the specific language governing permissions and
+// limitations under the License.
+
+//go:build !verif
+
+package originium
+
+import "container/list"
+
+// verifNames is only used as argument of verification hooks (build tag verif)
+func (lm *levelManager) verifNames(int, []*list.Element, int, []*list.Element) []string {
+	return nil
+}
